@@ -4,7 +4,7 @@
 # LzProofs/GenDHPParse.lean, GenBDHPParse.lean, GenBUPParse.lean (gen_*_parse: translated Parse = ProbeW.parseW).
 # Same mechanics as genhp_selftest.sh; every mutant names the proof target it is checked against.
 #
-# For every mutant: copy the repository to <verif>/scratch-repo, apply one small semantic
+# For every mutant: copy the repository to a fresh directory under /tmp, apply one small semantic
 # change, regenerate LzModel/Generated/Code*.lean from the copy into a COPY of the lake
 # project, and build the target module there.
 #   kind proof    : the build must FAIL (the failing theorems are listed)
@@ -22,7 +22,7 @@ REPO="${REPO:-/repo}"
 SCRATCH="$(mktemp -d /tmp/pf-gendhp-selftest.XXXXXX)"
 LEAN="$SCRATCH/lean"
 GEN="$LEAN/LzModel/Generated"
-MUT="$HERE/scratch-repo"
+MUT="$(mktemp -d /tmp/pf-mutrepo.XXXXXX)/scratch-repo"   # scratch copies of the library live outside /verif and /repo
 EXTRACT="$SCRATCH/extract"
 TARGETS="${TARGETS:-LzProofs.GenDHPParse LzProofs.GenBDHPParse}"
 bad=0; good=0; total=0
